@@ -96,3 +96,23 @@ package contracts
 //@   ensures err != nil ==> f == nil
 //@   ensures forall x int :: (err != nil || x != f.gfd) ==> fdopen[x] == old(fdopen[x])
 //@   modifies fdopen
+//@
+//@ ghost field time.Timer.tstate int
+//   tstate: 0 stopped-and-drained (or received), 1 armed, 2 fired with the value still in C (legacy timer-channel semantics)
+//@ extern time.NewTimer
+//@   params d
+//@   ensures fresh(result) && result != nil && result.tstate == 1
+//@   modifies nothing
+//@ extern (*time.Timer).Reset
+//@   params t d
+//@   note legacy semantics (go.mod < 1.23): Reset must only be called on a stopped or expired timer with a drained channel
+//@   requires t.tstate == 0
+//@   ensures t.tstate == 1
+//@   modifies t.tstate
+//@ extern (*time.Timer).Stop
+//@   params t
+//@   note an armed timer may fire at any moment before Stop
+//@   ensures old(t.tstate) == 0 ==> !result && t.tstate == 0
+//@   ensures old(t.tstate) == 2 ==> !result && t.tstate == 2
+//@   ensures old(t.tstate) == 1 ==> (result && t.tstate == 0) || (!result && t.tstate == 2)
+//@   modifies t.tstate
